@@ -471,8 +471,11 @@ func (d *disconRun) exec(op []string) string {
 		detail := fmt.Sprintf("no-outcome=%v left=%d prot=%v active=%d pending=%d alloc=%d reservations-waiting=%d reservations-refused=%v; goroutines: %s",
 			s.noOutcome, s.left, s.prot, s.active, s.pending, s.alloc, s.waiting, s.refused,
 			dumpGoroutines("AllocateAndBuildMessage", "responseassembler", "messagequeue.(*MessageQueue)", "responsemanager.(*ResponseManager).run"))
-		// attribute to the known finding when every peer with something stuck had a message (or a
-		// reservation) handed to a queue that was already shutting down
+		// Known finding reservation-refused-at-queue-shutdown, attributed narrowly: every peer with something
+		// stuck had a WAITING memory reservation refused (ReleasePeerMemory at its queue's exit), and nothing
+		// is left working or waiting for those responses (no task active or pending, no reservation waiting,
+		// memory returned).  A message merely built on a queue after its Shutdown is reported by the queue
+		// since /repo f15bc50: if such a response is stuck, that is a VIOLATION (normal classes below).
 		stuckPeers := map[int]bool{}
 		for _, id := range s.noOutcome {
 			stuckPeers[e.cfgs[id].peer] = true
@@ -483,17 +486,15 @@ func (d *disconRun) exec(op []string) string {
 				stuckPeers[pp] = true
 			}
 		}
-		// the finding's failure mode: the message is gone and NOTHING is left working or waiting for
-		// that response (no task active or pending, no reservation waiting, memory returned)
-		lateOnly := len(stuckPeers) > 0 && s.active == 0 && s.pending == 0 && s.waiting == 0 && s.alloc == 0
+		refusedOnly := len(stuckPeers) > 0 && s.active == 0 && s.pending == 0 && s.waiting == 0 && s.alloc == 0
 		for pp := range stuckPeers {
-			if e.lateBuilds(pp) == 0 && s.refused[pp] == 0 {
-				lateOnly = false
+			if s.refused[pp] == 0 {
+				refusedOnly = false
 			}
 		}
-		if lateOnly {
-			d.out.Cov("settle.message-queued-after-queue-shutdown")
-			d.out.Fail("message-queued-after-queue-shutdown", "a message (or its memory reservation) of peer(s) %v was handed to a message queue whose Shutdown had already been called (PeerMessageManager looks the queue up before the build; the peer disconnected in between): it is neither sent nor reported as unsent, so the response waits for a notification that never comes: %s", keysOf(stuckPeers), detail)
+		if refusedOnly {
+			d.out.Cov("settle.reservation-refused-at-queue-shutdown")
+			d.out.Fail("reservation-refused-at-queue-shutdown", "a transaction of peer(s) %v was waiting for memory when the peer's message queue exited: ReleasePeerMemory refused the reservation and MessageQueue.AllocateAndBuildMessage dropped the data without telling anyone, so the response whose terminal status was in it waits for a notification that never comes: %s", keysOf(stuckPeers), detail)
 			d.fault = false
 			return "not-settled"
 		}
